@@ -20,25 +20,31 @@
 (* sum of absolute weights is the sum of weights.                          *)
 (***************************************************************************)
 EXTENDS Naturals, FiniteSets, Sequences, TLC
-CONSTANTS Ids, Items, Weights, Cfgs, MaxTotal      \* bounds used only by Next (model checking)
+CONSTANTS Ids, Items, Weights, Cfgs, MaxTotal,     \* bounds used only by Next (model checking)
+          WideNums      \* FALSE: weights, totals, estimates and cells are TLC integers (< 2^31).  TRUE: they are exact wide
+                        \* naturals (module WideNum: 4 limbs of 20 bits), for traces with 64-bit weights (TraceCountMinW.cfg)
 VARIABLE obj
 vars == <<obj>>
+INSTANCE WideNum
+NZero == IF WideNums THEN WZero ELSE 0
+NAdd(a, b) == IF WideNums THEN WAdd(a, b) ELSE a + b
+NLeq(a, b) == IF WideNums THEN WLeq(a, b) ELSE a <= b
 
 Live == DOMAIN obj
-Get(f, x) == IF x \in DOMAIN f THEN f[x] ELSE 0
-Add(f, x, w) == IF x \in DOMAIN f THEN [f EXCEPT ![x] = @ + w] ELSE f @@ (x :> w)
-Plus(f, g) == [x \in DOMAIN f \cup DOMAIN g |-> Get(f, x) + Get(g, x)]
+Get(f, x) == IF x \in DOMAIN f THEN f[x] ELSE NZero
+Add(f, x, w) == IF x \in DOMAIN f THEN [f EXCEPT ![x] = NAdd(@, w)] ELSE f @@ (x :> w)
+Plus(f, g) == [x \in DOMAIN f \cup DOMAIN g |-> NAdd(Get(f, x), Get(g, x))]
 NumCells(c) == c.rows * c.buckets
-Zeros(n) == [k \in 1..n |-> 0]
+Zeros(n) == [k \in 1..n |-> NZero]
 
-Fresh(c) == [cfg |-> c, cells |-> Zeros(NumCells(c)), total |-> 0, stream |-> <<>>, truth |-> <<>>]
+Fresh(c) == [cfg |-> c, cells |-> Zeros(NumCells(c)), total |-> NZero, stream |-> <<>>, truth |-> <<>>]
 
 \* ---- clauses of the statement ------------------------------------------------------------
 \* a returned (estimate, lower bound, upper bound) for item x of sketch o
 EstOK(o, x, est, lb, ub) ==
-  /\ Get(o.truth, x) <= est         \* never under-estimates
-  /\ est <= o.total                 \* at most the total weight of the stream
-  /\ lb <= est /\ est <= ub
+  /\ NLeq(Get(o.truth, x), est)    \* never under-estimates
+  /\ NLeq(est, o.total)            \* at most the total weight of the stream
+  /\ NLeq(lb, est) /\ NLeq(est, ub)
 \* merge is defined for two different sketches of the same configuration
 Compatible(i, j) == i # j /\ obj[i].cfg = obj[j].cfg
 \* linearity: the merged array is the array of ANY live sketch of the same configuration that was fed the
@@ -49,13 +55,13 @@ Linear(n, c2, except) ==
 Init == obj = <<>>
 New(i, c) == obj' = (i :> Fresh(c)) @@ obj
 UpdPost(o, x, w, c2) ==
-  [o EXCEPT !.stream = Append(@, <<x, w>>), !.truth = Add(@, x, w), !.total = @ + w, !.cells = c2]
+  [o EXCEPT !.stream = Append(@, <<x, w>>), !.truth = Add(@, x, w), !.total = NAdd(@, w), !.cells = c2]
 Update(i, x, w, c2) ==
-  /\ i \in Live /\ w >= 0
+  /\ i \in Live /\ NLeq(NZero, w)
   /\ Len(c2) = NumCells(obj[i].cfg)
   /\ obj' = [obj EXCEPT ![i] = UpdPost(@, x, w, c2)]
 MergePost(o, p, c2) ==
-  [o EXCEPT !.stream = @ \o p.stream, !.truth = Plus(@, p.truth), !.total = @ + p.total, !.cells = c2]
+  [o EXCEPT !.stream = @ \o p.stream, !.truth = Plus(@, p.truth), !.total = NAdd(@, p.total), !.cells = c2]
 Merge(i, j, c2) ==
   /\ i \in Live /\ j \in Live /\ Compatible(i, j)
   /\ LET n == MergePost(obj[i], obj[j], c2) IN
